@@ -37,6 +37,9 @@ def _extra(ctx, spec):
         'generated XxxScaled/SetXxxScaled pairs swept over every raw value (accessors)': so.get('typed-exhaustive', 0),
         'generated accessors sampled (strided / 32-bit windows)': so.get('typed-strided', 0) + so.get('typed-windows-32', 0),
         'all 2^32 semicircle values / all 2^32 timestamps on the implementation (sweeps)': ta.get('exhaustive-2^32', 0) + ta.get('exhaustive-2^32-sc', 0),
+        'generated slice / fixed-array accessors exercised element-wise (nil, empty, sentinel in every position, negative elements, random lists) (accessors)': so.get('typed-slice-accessors', 0),
+        'one-validator sequences with two natively-mapped developer fields whose native fields share the field number in different messages (lines)': so.get('validator-seq-collision', 0),
+        'one-validator random sequences (several developer data ids, descriptions with native / own / no scale, missing descriptions) (lines)': so.get('validator-seq-random', 0),
     }
 
 
@@ -47,13 +50,19 @@ PROP = dict(
     theorems=['Fit.C12.C12_f64_round_err', 'Fit.C12.C12_scale_roundtrip_rounded', 'Fit.C12.C12_profile_pairs_in_range',
               'Fit.C12.C12_helpers', 'Fit.C12.C12_helpers_int64', 'Fit.C12.C12_value_route', 'Fit.C12.C12_validator', 'Fit.C12.C12_csv',
               'Fit.C12.C12_slice', 'Fit.C12.C12_unit_identity', 'Fit.C12.C12_datetime', 'Fit.C12.C12_semicircles',
-              'Fit.C12.C12_typed', 'Fit.C12.C12_typed_invalid', 'Fit.C12.C12_typed_witness_fixed', 'Fit.C12.C12_F07_witness_fixed'],
+              'Fit.C12.C12_typed', 'Fit.C12.C12_typed_invalid', 'Fit.C12.C12_typed_witness_fixed', 'Fit.C12.C12_F07_witness_fixed',
+              'Fit.C12.C12_typed_table', 'Fit.C12.C12_typed_all', 'Fit.C12.C12_typed_slice', 'Fit.C12.C12_typed_array',
+              'Fit.C12.C12_typed_slice_all', 'Fit.C12.C12_native_table', 'Fit.C12.C12_validator_dev', 'Fit.C12.C12_validator_dev_std', 'Fit.C12.C12_validator_dev_own',
+              'Fit.C12.C12_validator_seq', 'Fit.C12.C12_csv_pairs', 'Fit.C12.C12_csv_text', 'Fit.C12.C12_csv_cell'],
     families=[dict(name='f64'), dict(name='scaleoffset', spec=True, shrink=False), dict(name='timeangle', spec=True, shrink=False)],
     trusted_base=STD_TRUST + [
         "binary64: FitModel/F64.lean (exact rational operation + one round-to-nearest-even, gradual underflow, overflow, signed zeros; NaN canonical) is tied to Go's float64 on this machine by the family f64 (add/sub/mul/div/compare/math.Round/int<->float conversions on bit patterns: structured + random operands); amd64 does not fuse multiply-add",
         "float->integer conversion of NaN / out-of-range values is platform-defined in Go: the model reproduces amd64 (CVTTSD2SL/CVTTSD2SQ and the uint64 sequence), flags those cases (cvtFlag) and every theorem excludes them",
         "Generated/ProfileArith.lean (scale/offset/base type triples, components, generated accessors and the factory field each maps to) is printed on every run from the compiled factory and by reflection + ToMesg probing over the mesgdef structs",
-        "strconv shortest float formatting / parsing in the CSV route is exact (round-trips) and prints a '.' for every finite value met here: assumed, exercised by the csv route of the family",
+        "Generated/ProfileArith.lean `typed` (every generated XxxScaled/SetXxxScaled pair: element kind, sentinel, shape scalar / slice / [N], scale/offset of the factory field it maps to; the accessor's own return type must have the shape of the struct field) and `fields` (every field of the standard factory: base type, scale, offset) come from the same translator; C12_typed_table / C12_native_table / C12_csv_pairs are kernel-evaluated over them on every run",
+        "CSV text: ScaleOffset.csvHasDot models `strings.Contains(format(float64), \".\")` = fitcsv format (whole value -> 'f' with one decimal, else 'g' shortest) + strconv's rule for 'g' (%e form iff decimal exponent < -4 or >= 6 for the shortest precision; %e without '.' iff the shortest decimal has ONE digit; the shortest decimal has one digit iff the value is the float64 nearest to d*10^k): tied to the real formatter by the operation socd on whole values, one-digit decimals of every exponent and their neighbours, the scaled values of small raw numbers at every profile pair and arbitrary operands — not proved against strconv's source. That the '.' is present for every scaled value is then a theorem (C12_csv_text), no longer an assumption",
+        "strconv.ParseFloat of the shortest text strconv.FormatFloat wrote gives back the same float64 (documented round-trip property of the shortest formatting): assumed, exercised by the csv route of the family on every 8/16-bit raw value and 32-bit windows",
+        "encoder validator, developer fields: ScaleOffset.validatorDevField / validatorSeq model encoder/validator.go:157-227 for numeric scalar developer values with ValidatorWithPreserveInvalidValues (state = developer data indexes + field descriptions in order; first matching description; native field looked up per description; alignment against the description's base type); the field_description message -> mesgdef.NewFieldDescription step is real code on the harness side and a direct reading of the item on the model side (tied by the operation sov)",
         "time.Time: instants without monotonic reading; Sub saturates; Duration.Seconds() = float64(d/1e9)+float64(d%1e9)/1e9 (documented behaviour, tied by the family timeangle incl. all 2^32 timestamps)",
     ],
     assumptions=[
@@ -64,6 +73,34 @@ PROP = dict(
 
 TEXT = dict(
     technique='Lean 4 proof over an executable IEEE-754 binary64 model (bit patterns; exact rational operation + round-to-nearest-even) of kit/scaleoffset, the validator restoration, the generated typed accessors, the CSV scaled path, kit/datetime and kit/semicircles; profile pairs regenerated from the compiled factory; exhaustive differential tie (every 8/16-bit raw value x every profile pair x every route, all 2^32 timestamps / semicircles on the implementation)',
-    text='C12: raw -> scaled -> raw through every route of the SDK.',
+    text=('C12: raw -> scaled (physical float64) -> raw is the identity through every conversion route of the SDK, proved on an executable '
+          'binary64 model for all raw values, not sampled. '
+          'ARITHMETIC: C12_f64_round_err (one rounding: relative error <= 2^-53, exact when representable); C12_scale_roundtrip_rounded: for every '
+          'integer |r| <= 2^49 and every pair meeting the decidable condition pairOK (positive normal scale in [1/2, 2^17), |offset| < 2^10), '
+          'math.Round(((float64(r)/scale - offset) + offset)*scale) is finite with exact value r; C12_profile_pairs_in_range: every (scale, offset) of the '
+          'regenerated profile meets pairOK, no 64-bit and no float field is scaled (kernel-evaluated). '
+          'ROUTES, each for EVERY integer type of at most 32 bits, EVERY raw bit pattern of the type (the invalid sentinel is an ordinary value here) and '
+          'EVERY profile pair: C12_helpers (Apply -> DiscardValue/DiscardAny scalar path, also the unit pair), C12_value_route (ApplyValue -> DiscardValue on '
+          'proto.Value), C12_slice (ApplySlice -> DiscardSlice[T] and slice values, every element, any length), C12_validator (the encoder validator\'s '
+          'restoration of a native field), C12_validator_dev / _dev_std / _dev_own / _seq (a developer field mapped to a native field is restored with the base type / '
+          'scale / offset of ITS OWN native (message, field), in every state of one validator: the answer depends on the earlier messages only through the '
+          'developer data ids and field descriptions they announced; with the standard factory every scaled native field has a profile pair: C12_native_table; a description without native field but with a scale 1..254 and an int8 offset of its own: _dev_own), '
+          'C12_csv (parseValue\'s scaled path), C12_csv_text (the text fitcsv writes for the scaled value of any such raw value contains a \'.\', so the reader '
+          'takes the scaled path and never ParseUint/ParseInt: a whole value is written x.0, the values below 10^-4 are evaluated and are not one-digit '
+          'decimals; side condition C12_csv_pairs kernel-checked over the profile), C12_csv_cell (both together). '
+          '64-BIT: C12_helpers_int64: int64 raw values with |raw| <= 2^49 only (binary64 has 53 significand bits; counter-example 2^53+1 given; no 64-bit profile '
+          'field is scaled); C12_unit_identity: with the unit pair the value-level helpers do not touch a value of any type or width. '
+          'GENERATED ACCESSORS of profile/mesgdef (381 pairs, regenerated table): C12_typed (scalar XxxScaled -> SetXxxScaled: every raw value other than the '
+          'sentinel = largest value of the type comes back, every type <= 32 bits, every profile pair), C12_typed_invalid (the sentinel maps to the float64 '
+          'invalid pattern and back), C12_typed_table (EVERY row of the regenerated table has an element type <= 32 bits, sentinel = largest value, pair in the '
+          'profile) hence C12_typed_all (the identity for every generated accessor, as a theorem over the table); slice accessors []T (66) and fixed-array '
+          'accessors [N]T (2) have their own generated loops: C12_typed_slice (nil stays nil, empty stays empty, EVERY element comes back, sentinel and '
+          'negative elements included, any length), C12_typed_array (the same for [N]T, all-sentinel array answered by the whole-array test included), '
+          'C12_typed_slice_all (for every slice / array row of the table). '
+          'TIME, ANGLE: C12_datetime (ToUint32(ToTime(v)) = v for all 2^32 v, sentinel included), C12_semicircles (ToSemicircles(ToDegrees(s)) = s for all 2^32 s). '
+          'Witnesses of the repaired findings: C12_F07_witness_fixed, C12_typed_witness_fixed. '
+          'ASSUMED (see trusted_base): the binary64 model = the hardware (family f64); the csvHasDot model of strconv formatting (operation socd); ParseFloat '
+          'inverts shortest FormatFloat; time.Time / Duration.Seconds as documented. NOT COVERED: 64-bit raw values beyond 2^49 through the float path; '
+          'the validator without ValidatorWithPreserveInvalidValues (the sentinel is dropped by design); string / array developer values in the sequence model.'),
     note='Trusted: Lean kernel; profile translator; line protocol; the binary64 model is tied to the hardware by differential testing, not proved against IEEE-754 text.',
 )
